@@ -1,7 +1,13 @@
 import Banyan.Model.C02
+import Banyan.Generated.C02
 open Banyan
 
 /-- model driver for C02 (protocol: hooks/banyand/internal/verifdrv/mrw/main.go).
-    `legacy` as first argument runs `mustInitFromDataPoints` with the zero sentinels of the pinned commit. -/
+    The model is instantiated with the shape of `mustInitFromDataPoints` found in the tree under test
+    (`Generated.C02.initGuarded`), so that model and implementation correspond on the pinned code as
+    well as on the repaired one; the theorems (and `Tie.C02.init_guard_tie`) are about the repaired one.
+    An explicit argument `legacy` / `fixed` overrides. -/
 def main (args : List String) : IO Unit :=
-  runDriver (Store.Proto.handleWith (if args.contains "legacy" then C02.cfgLegacy else C02.cfg))
+  let legacy := if args.contains "legacy" then true else if args.contains "fixed" then false
+                else !Generated.C02.initGuarded
+  runDriver (Store.Proto.handleWith (if legacy then C02.cfgLegacy else C02.cfg))
